@@ -209,7 +209,7 @@ class Inliner:
     def _target(self, func: FuncInfo, call: ast.Call, stack: Tuple[int, ...]) -> Optional[FuncInfo]:
         fn = call.func
         name = fn.attr if isinstance(fn, ast.Attribute) else (fn.id if isinstance(fn, ast.Name) else None)
-        if name is None or not name.startswith('_') or name.startswith('__') or name in ANCHORS:
+        if name is None or not name.startswith('_') or (name.startswith('__') and name.endswith('__')) or name in ANCHORS:
             return None
         if any(isinstance(a, ast.Starred) for a in call.args) or any(k.arg is None for k in call.keywords):
             return None
@@ -344,6 +344,13 @@ class Inliner:
                 if g is None:
                     return node
                 body = _docstring_free(g.node.body)
+                # ``if c: return a`` + ``return b`` (two-way helper) is the expression ``a if c else b``
+                if (len(body) == 2 and isinstance(body[0], ast.If) and not body[0].orelse and len(body[0].body) == 1 and isinstance(body[0].body[0], ast.Return)
+                        and body[0].body[0].value is not None and isinstance(body[1], ast.Return) and body[1].value is not None):
+                    body = [ast.Return(value=ast.IfExp(test=body[0].test, body=body[0].body[0].value, orelse=body[1].value))]
+                elif (len(body) == 1 and isinstance(body[0], ast.If) and len(body[0].body) == 1 and len(body[0].orelse) == 1 and isinstance(body[0].body[0], ast.Return)
+                        and isinstance(body[0].orelse[0], ast.Return) and body[0].body[0].value is not None and body[0].orelse[0].value is not None):
+                    body = [ast.Return(value=ast.IfExp(test=body[0].test, body=body[0].body[0].value, orelse=body[0].orelse[0].value))]
                 if len(body) != 1 or not isinstance(body[0], ast.Return) or body[0].value is None:
                     return node
                 b = inl._bind(g, node, set())
@@ -502,17 +509,32 @@ class Inliner:
         for n in ast.walk(func.node):
             if isinstance(n, ast.Call):
                 nm = n.func.attr if isinstance(n.func, ast.Attribute) else (n.func.id if isinstance(n.func, ast.Name) else '')
-                if nm.startswith('_') and not nm.startswith('__') and nm not in ANCHORS:
+                if nm.startswith('_') and not (nm.startswith('__') and nm.endswith('__')) and nm not in ANCHORS:
                     cand = True
                     break
-        if not cand:
+        # ... and no conditional expression as the whole value of an assignment / return (lowered to if/else in the view)
+        lower = any(isinstance(n, (ast.Assign, ast.AnnAssign, ast.Return)) and isinstance(getattr(n, 'value', None), ast.IfExp) for n in ast.walk(func.node))
+        if not cand and not lower:
             return func
         before = len(self.log)
         node = copy.deepcopy(func.node)
+        if lower:
+            node.body = _lower_ifexp(node.body)
+            self.log.append(f'{func.qualname}: conditional expressions lowered to if/else')
         tmp = FuncInfo(node, func.module, func.cls, func.parent)
         self.prog._index_nested(tmp, func.module)
         names = _assigned_names(node.body) | {a.arg for a in node.args.args + node.args.kwonlyargs}
         node.body = self._process_block(tmp, node.body, names, (id(func.node), id(node)))
+        # the scratch function's nested definitions were indexed for call resolution only: nothing may find them afterwards
+        # (their parent is in no index, so a rule asking for their callers would find none)
+        scratch: Set[int] = set()
+
+        def collect(fi: FuncInfo) -> None:
+            for g in list(fi.nested.values()) + list(fi.lambdas):
+                scratch.add(id(g))
+                collect(g)
+        collect(tmp)
+        func.module.all_funcs[:] = [g for g in func.module.all_funcs if id(g) not in scratch]
         if len(self.log) == before:
             return func
         ast.fix_missing_locations(node)
@@ -522,6 +544,38 @@ class Inliner:
         self._views[key] = v
         self._views[id(node)] = v
         return v
+
+
+def _lower_ifexp(stmts: List[ast.stmt]) -> List[ast.stmt]:
+    """``t = a if c else b`` -> ``if c: t = a / else: t = b`` (same for ``return``), recursively through compound statements and nested
+    conditional expressions; nested function bodies are left alone.  One normal form for the two spellings of a two-way choice."""
+    out: List[ast.stmt] = []
+    for s in stmts:
+        if isinstance(s, (ast.FunctionDef, ast.AsyncFunctionDef, ast.ClassDef)):
+            out.append(s)
+            continue
+        v = getattr(s, 'value', None)
+        if isinstance(s, (ast.Assign, ast.AnnAssign, ast.Return)) and isinstance(v, ast.IfExp):
+            def mk(val):
+                if isinstance(s, ast.Return):
+                    n = ast.Return(value=val)
+                elif isinstance(s, ast.Assign):
+                    n = ast.Assign(targets=copy.deepcopy(s.targets), value=val)
+                else:
+                    n = ast.Assign(targets=[copy.deepcopy(s.target)], value=val)
+                return ast.copy_location(n, s)
+            new = ast.If(test=v.test, body=_lower_ifexp([mk(v.body)]), orelse=_lower_ifexp([mk(v.orelse)]))
+            ast.copy_location(new, s)
+            out.append(new)
+            continue
+        for fld in ('body', 'orelse', 'finalbody'):
+            if hasattr(s, fld) and isinstance(getattr(s, fld), list) and getattr(s, fld) and isinstance(getattr(s, fld)[0], ast.stmt):
+                setattr(s, fld, _lower_ifexp(getattr(s, fld)))
+        if isinstance(s, ast.Try):
+            for h in s.handlers:
+                h.body = _lower_ifexp(h.body)
+        out.append(s)
+    return out
 
 
 def _always_exits_or_assigns(stmts: List[ast.stmt], target) -> bool:
